@@ -242,7 +242,7 @@ ADDENDA = {
     "C10": " Also: the rebuild covers each qubit-bearing sub-store (gate and measure calibrations separately), also when the cache is filled through a local collection; replacing a qubit-bearing definition triggers a rebuild (repaired). Also: content merged from another Program must be matched by a rebuild, a union with that program's cache, or add_instruction(s) fed from the same store; a Program literal that takes over another value's cache takes every qubit-bearing store from that value too or rebuilds; a hand-written rebuild reads every Qubit-holding field of each definition type it walks.",
     "C11": " Also: every field merge of the nested merge helpers happens on every path (no fast path decided from part of the other operand).",
     "C12": " Guard helpers are inlined and let-else / if-chain bindings are modelled, so the affine rule is decided too; no undecided instance is left.",
-    "C13": " Also: substitute_variables returns a node of the same kind for Infix/Prefix/FunctionCall on every path; every value evaluate computes from evaluated children goes through calculate_infix / calculate_function / negation. Also: substitution returns every leaf other than a Variable unchanged; the memory-reference listing defers a child unconditionally.",
+    "C13": " Also: substitute_variables returns a node of the same kind for Infix/Prefix/FunctionCall on every path; every value evaluate computes from evaluated children goes through calculate_infix / calculate_function / negation. Also: substitution returns every leaf other than a Variable unchanged; the memory-reference listing defers a child unconditionally. evaluate reads the memory cell at exactly the reference's own index and gives pi the value of pi.",
     "C14": " Also (shape rules, not part of the proof of the tables): every permutation step in two_swap_helper / permutation_arbitrary multiplies the new factor on the left of the accumulator in every branch; the gate's parameter reaches its matrix function unchanged.",
     "C17": " Also: the parameter substitution in the closure handed to apply_to_expressions is unconditional; both public entry points return what expand_calibrations_inner built on every path. Also: the expansion output reaches the program only through add_instruction(s) (hoisting of DECLARE with and without a source map).",
     "C18": " Also: at every call in the expansion cycle and its public wrappers the callee's error is propagated (`?`, returned as is, or an Err arm that returns). Also: substitute_variables recurses only on sub-expressions of the node it was given (never on a value from the substitution map).",
